@@ -58,8 +58,16 @@ def oracle(rep, cs, out, expect, sig_prefix, what):
                           {"cases": [m["cmd"]], "impl": vlib.short(res, 600)})
             continue
         rel = expect(m)
-        if rel == "scaled" and (outb == m["png"] or (pg.parse_img_token(outtok)[3] == 16 and "force=1" not in m["opts"])):
-            rel = "eq"          # the scaled result was not smaller: the image is kept as it is (C04); only forced output must be scaled
+        if rel == "scaled" and (outb == m["png"] or pg.parse_img_token(outtok)[3] == 16):
+            # the input is returned, or nothing was emitted (the image data of the input is written back, possibly with fewer
+            # chunks): the image is kept as it is (C04). Whatever IS emitted under --scale16 is at most 8 bits deep
+            # (C15_emitted_scaled): new image data at 16 bits means the scaling was skipped
+            idat = lambda b: b"".join(c[8:-4] for c in e2e.chunk_list(b) if c[4:8] == b"IDAT")
+            if outb != m["png"] and idat(outb) != idat(m["png"]):
+                rep.violation(f"{sig_prefix}:emitted-16-bit", "with --scale16 and bit-depth reductions enabled new image data was emitted at 16 bits per sample "
+                              f"(options {m['opts']})", {"cases": [m["cmd"]], "impl": vlib.short(res, 300)})
+                continue
+            rel = "eq"
         orc.add(f"spec_rel_stream {intok} {outtok}" + (" scaled" if rel == "scaled" else ""), src=cid, rel=rel)
     ro = vlib.run_cases(model, orc.lines)
     for oid, m in orc.meta.items():
